@@ -1,4 +1,4 @@
 #!/bin/sh
 # usage: matrix.sh <dir-with-patches-glob>...   runs every patch against ALL claimed properties (parallel)
 VERIF="$(cd "$(dirname "$0")/.." && pwd)"
-for p in "$@"; do echo "$p"; done | xargs -P 8 -I{} sh -c 'out=$('"$VERIF"'/tools/mutrun.sh {} ALL | grep -v "violations=0" | tr "\n" ";"); echo "{} => ${out:-MISSED}"' | sort
+for p in "$@"; do echo "$p"; done | xargs -P 8 -I{} sh -c 'out=$('"$VERIF"'/tools/mutrun.sh {} ALL | grep -v "rc=0 violations=0" | tr "\n" ";"); echo "{} => ${out:-MISSED}"' | sort
